@@ -75,6 +75,19 @@ fn main() {
             let out = arg(&args, "--out").unwrap_or_else(|| "/dev/stdout".into());
             std::fs::write(&out, serde_json::to_string_pretty(&j).unwrap()).expect("write part");
         }
+        "child" => {
+            let ca = child_args_from(&args).expect("child arguments");
+            let label = arg(&args, "--label").unwrap_or_default();
+            let mut ctx = ctx;
+            ctx.threads = 1;
+            match entry.child {
+                Some(f) => f(&ctx, &ca, &label),
+                None => {
+                    eprintln!("property has no child mode");
+                    std::process::exit(2);
+                }
+            }
+        }
         "replay" => {
             let path = arg(&args, "--case").expect("--case FILE");
             let v: Value = serde_json::from_str(&std::fs::read_to_string(&path).expect("read case")).expect("json");
